@@ -182,7 +182,7 @@ let () =
                 | None -> "nil"
                 | Some (((neg, i), f), e) ->
                     Printf.sprintf "%s %s %s %s" (b2s neg) (hx i) (match f with Some x -> hx x | None -> "false") (match e with Some x -> hx x | None -> "nil"))
-           | "from_text" -> (match bn_from_text (bytes 0) with TInt x -> hex_of_limbs x | TFloat -> "float" | TMalformed -> "!err malformed" | TOther -> "other")
+           | "from_text" -> (match bn_from_text (bytes 0) with TInt x -> hex_of_limbs x | TFloat -> "float" | TMalformed -> "!err raises" | TOther -> "other")
            | "lua_tonumber" -> (match lua_tonumber_base (bytes 0) (zi 1) with Some v -> hex_of_z v | None -> "nil")
            | "lua_tostring" -> (match lua_tostring_int (zi 0) with Some t -> str_of_codes t | None -> "!err FUEL")
            | "lua_format_x" -> (match lua_format_x (zi 0) with Some t -> str_of_codes t | None -> "!err FUEL")
